@@ -1,7 +1,7 @@
 (* C31 - how serialization.Bag.to_dict walks the objects it was given (hand-written model of Bag.to_dict / _process_object,
    tied by the correspondence run).  Objects are numbers; `rel o` lists the objects o refers to (its to-one references and the
    items of its collections), in attribute order; `order` is the iteration order of bag.objects.  Definitions only. *)
-Require Import PonyV.Base.PyBase.
+Require Import PonyV.Base.PyBase PonyV.Model.C31Codec PonyV.Gen.C31Reduce.
 
 (* what the result holds for an object: all configured attributes, or (processed as a related object only) no collections *)
 Inductive mark := Full | Partial.
@@ -9,16 +9,20 @@ Definition marks := nat -> option mark.            (* bag.dicts *)
 Definition no_marks : marks := fun _ => None.
 Definition set_mark (o : nat) (k : mark) (m : marks) : marks := fun x => if Nat.eqb x o then Some k else m x.
 
-(* _process_object(obj): every related object is (re)processed with process_related=False -- the guard
-   `if related_obj not in bag.dicts` tests an object against a dict keyed by entities, so it never skips -- and stored, overwriting
-   whatever was there; then obj itself is stored with all attributes *)
-Definition process (rel : nat -> list nat) (o : nat) (m : marks) : marks :=
-  set_mark o Full (fold_left (fun m r => set_mark r Partial m) (rel o) m).
+(* _process_object(obj): every related object is (re)processed with process_related=False and stored, overwriting whatever was there
+   -- unless (skip) it was itself given to the bag; then obj itself is stored with all attributes.
+   skip = bag_skips_given_related, scanned from /repo: the original guard `if related_obj not in bag.dicts` tested an object against a
+   dict keyed by entities and never skipped, and the to-one branch had no guard at all *)
+Definition memb (x : nat) (l : list nat) : bool := existsb (Nat.eqb x) l.
+Definition process_gen (skip : bool) (rel : nat -> list nat) (given : list nat) (o : nat) (m : marks) : marks :=
+  set_mark o Full (fold_left (fun m r => if skip && memb r given then m else set_mark r Partial m) (rel o) m).
 
 (* to_dict(): `for obj in objects: if obj not in dicts: bag._process_object(obj)` *)
-Definition bag_step (rel : nat -> list nat) (m : marks) (o : nat) : marks :=
-  match m o with Some _ => m | None => process rel o m end.
-Definition bag_to_dict (rel : nat -> list nat) (order : list nat) : marks := fold_left (bag_step rel) order no_marks.
+Definition bag_step_gen (skip : bool) (rel : nat -> list nat) (given : list nat) (m : marks) (o : nat) : marks :=
+  match m o with Some _ => m | None => process_gen skip rel given o m end.
+Definition bag_to_dict_gen (skip : bool) (rel : nat -> list nat) (order : list nat) : marks :=
+  fold_left (bag_step_gen skip rel order) order no_marks.
+Definition bag_to_dict (rel : nat -> list nat) (order : list nat) : marks := bag_to_dict_gen bag_skips_given_related rel order.
 
 (* dictionary keys of the result: Bag.to_dict flushes the session first (as Entity.to_dict does), so every object -- also one
    created in this session with an automatic key -- has its primary key when the result keys are read *)
